@@ -24,7 +24,7 @@ PROPS = {
     'C08': _p(['E3', 'E4', 'E5', 'EM']),
     'C09': _p(['E2', 'E3', 'E4', 'EM']),
     'C10': _p(['E4', 'E3', 'EM']),
-    'C11': _p(['E3', 'E4']),
+    'C11': _p(['E3', 'E4', 'EM']),
     'C12': _p(['E6', 'E3', 'E4', 'E5', 'E7', 'EM']),
     'C13': _p(['E9']),
     'C14': _p(['E1', 'E2', 'E3', 'E9', 'EM']),
